@@ -71,7 +71,7 @@ def append_tier_table(rep, kindA, kindB, ka, kb):
 
         def spec(O):
             if kindA != kindB:
-                O.raise_("ArgumentError")
+                O.raise_("ANY")
             if kindA == "interval":
                 shifted = [(aM + s, aM + e, l) for s, e, l in B]
             else:
